@@ -1,11 +1,29 @@
 package identity
 
-import "github.com/ProtonMail/go-crypto/openpgp"
+import (
+	"sync"
 
-// PGPEntity (M-PGP): harness keys carry no key material; real keys use the real code.
+	"github.com/ProtonMail/go-crypto/openpgp"
+)
+
+var (
+	vhEntitiesMu sync.Mutex
+	vhEntities   = map[*Key]*openpgp.Entity{}
+)
+
+// PGPEntity (M-PGP): harness keys carry no key material; each of them stands for one
+// stable OpenPGP entity (so that "signed by this key" is pointer identity). Real keys use
+// the real code.
 func (k *Key) PGPEntity() *openpgp.Entity {
 	if k.public == nil {
-		return &openpgp.Entity{}
+		vhEntitiesMu.Lock()
+		defer vhEntitiesMu.Unlock()
+		e, ok := vhEntities[k]
+		if !ok {
+			e = &openpgp.Entity{}
+			vhEntities[k] = e
+		}
+		return e
 	}
 	return k.PGPEntity__orig()
 }
